@@ -255,6 +255,9 @@ def run(ctx):
         icpt.append(random_script(rng, "icpt", length // 2, rng.choice([1, 2, 3, 4]), rng.choice([0, 0, 1200, 100, 102, 600, 1199])))
     rec += [idle_script(rng, "rec") for _ in range(2 if ctx.quick else 10)]
     icpt += [idle_script(rng, "icpt") for _ in range(1 if ctx.quick else 5)]
+    for sc in icpt:                                     # one bound stream that carries every SSRC of the script
+        if rng.random() < 0.3:
+            sc["shared"] = True
     # quick: one Recorder batch (families + walks + random) and one interceptor batch; thorough: the families ran above
     run_chunked(ctx, rec, "GT-rec" if ctx.quick else "T-rec-walks-random", 20000 if ctx.quick else 300)
     run_chunked(ctx, icpt, "GT-icpt", 20000 if ctx.quick else 2000)
